@@ -215,8 +215,11 @@ pub fn spaces(tier: Tier) -> Vec<Box<dyn Space>> {
         if t {
             add(format!("hist-{name}-core-le3"), programs(pad, 3, true), Profile::Poison);
         }
-        // fast: the shipped behaviour (a stale read shows once the slot is reused)
-        add(format!("hist-{name}-all-le2"), programs(pad, 2, false), Profile::Fast);
+        // fast: the shipped behaviour (a stale read shows once the slot is reused); the quick
+        // tier runs the two longer paddings in the poisoning build only
+        if t || name == "len3" {
+            add(format!("hist-{name}-all-le2"), programs(pad, 2, false), Profile::Fast);
+        }
         if t {
             add(format!("hist-{name}-all-le3"), programs(pad, 3, false), Profile::Fast);
         } else if name == "len3" {
